@@ -141,7 +141,13 @@ def classify_method_extraction(src, start, end, new_src, new_name="extracted_q")
             continue
         comp = any(isinstance(n, ast.comprehension) and any(isinstance(t, ast.Name) and t.id == v for t in ast.walk(n.target))
                    for st in after_nodes for n in ast.walk(st))
-        return "missing-return", f"w={wk},after={ak}" + (",comprehension-rebinds-after" if comp else "")
+        if comp:
+            ak = "comprehension-rebinds"
+        elif ak in ("read", "aug"):
+            ak = "direct"
+        elif ak.startswith("nested-"):
+            ak = "nested-" + ak.split(":")[1]
+        return "missing-return", f"w={wk},after={ak}"
     # ---- missing parameter
     for v in dict.fromkeys(read):
         if v in params or v not in bound_before:
@@ -151,6 +157,12 @@ def classify_method_extraction(src, start, end, new_src, new_name="extracted_q")
         if _definitely_written_before_read(region, v):
             continue
         return "missing-parameter", "w=conditional-or-later"
+    # ---- a comprehension's own variable passed in as if it were a free variable
+    comp_targets = {t.id for st in region for n in ast.walk(st) if isinstance(n, ast.comprehension)
+                    for t in ast.walk(n.target) if isinstance(t, ast.Name)}
+    for v in params:
+        if v in comp_targets:
+            return "spurious-parameter", "comprehension-variable"
     # ---- returned although only conditionally written and not passed in
     for v in dict.fromkeys(written):
         if v in returned and v not in params and v in bound_before and not any(_binds_directly(st, v) for st in region):
@@ -159,23 +171,24 @@ def classify_method_extraction(src, start, end, new_src, new_name="extracted_q")
 
 
 def _stmts_after(host, region, pos, r_end):
-    """Statements of the host that start after the region (in source order, outermost first)."""
+    """Statements that can execute after the region: the following siblings of the region in its
+    block, then the following siblings of each enclosing statement, outwards up to the host."""
     out = []
-    for node in ast.walk(host):
-        for _, body in srcpos.bodies(node):
-            for st in body:
-                if pos.span(st)[0] >= r_end:
-                    out.append(st)
-    out.sort(key=lambda st: (st.lineno, st.col_offset))
-    # drop statements nested in an earlier selected one
-    res, covered = [], set()
-    for st in out:
-        if id(st) in covered:
-            continue
-        res.append(st)
-        for ch in ast.walk(st):
-            covered.add(id(ch))
-    return res
+    node = region[-1]
+    while node is not None and node is not host:
+        parent = getattr(node, "_parent", None)
+        if parent is None:
+            break
+        for _, body in srcpos.bodies(parent):
+            if any(st is node for st in body):
+                idx = [i for i, st in enumerate(body) if st is node][0]
+                out += body[idx + 1:]
+        if isinstance(parent, ast.ExceptHandler):
+            parent = getattr(parent, "_parent", None)
+        node = parent
+        if isinstance(node, FUNC):
+            break
+    return out
 
 
 def _first_mention_after(v, stmts):
